@@ -6,7 +6,8 @@ import B6.Model.Bits
 Every record kind `R` of the compact index has
 
 * `R.enc … r : Bytes`   — the bytes `R.Marshal(…, buffer)` writes (its return value is their length),
-* `R.ok r : Bool`       — `false` exactly when the Go `Marshal` panics (`EncodeValueType`, "Can't encode role")
+* `R.ok r : Bool`       — `false` exactly when the Go `Marshal` panics (`EncodeValueType`, "Can't encode role",
+                          "Can't encode member type")
                           or the value is not representable in Go (a slice longer than any Go slice can be: ≥ 2^62 / 2^63 elements),
 * `R.marshal … r : Option Bytes := if R.ok r then some (R.enc … r) else none`,
 * `R.dec … : Dec R`     — `R.Unmarshal(…, buffer)` on a *fresh* receiver: the decoded value and the returned
@@ -343,14 +344,17 @@ deriving DecidableEq, Repr, Inhabited
 def Member.word (m : Member) : Nat := m.role.toNat * 4 % 2 ^ 64 ||| m.type.toNat
 /-- no "Can't encode role" panic -/
 def Member.ok (m : Member) : Bool := m.role.toNat * 4 % 2 ^ 64 / 4 == m.role.toNat
+/-- no "Can't encode member type" panic (fixes/C11-member-type-guard.patch): the type fits the
+`FeatureTypeBits = 2` bits of the role word — point, path, area, relation; a negative `int` is `≥ 2^63` here -/
+def Member.typeOk (m : Member) : Bool := decide (m.type.toNat < 4)
+/-- `Members.Marshal` accepts the member: neither panic -/
+def Member.fits (m : Member) : Bool := m.ok && m.typeOk
 def Member.enc (p : BitVec 16) (m : Member) : Bytes := putUvarint m.word ++ Reference.enc p m.id
 def Member.dec (p : BitVec 16) : Dec Member :=
   dUvarint.andThen fun w => (Reference.dec p).map fun id =>
     ⟨BitVec.ofNat 64 (w % 4), BitVec.ofNat 64 (w / 4), id⟩
 
-/-- the member type fits the `FeatureTypeBits = 2` bits of the role word (point, path, area, relation) -/
-def Member.typeOk (m : Member) : Bool := decide (m.type.toNat < 4)
-def Members.ok (ms : List Member) : Bool := decide (ms.length < 2 ^ 63) && ms.all Member.ok
+def Members.ok (ms : List Member) : Bool := decide (ms.length < 2 ^ 63) && ms.all Member.fits
 def Members.enc (p : BitVec 16) (ms : List Member) : Bytes :=
   putUvarint ms.length ++ encEach (fun (_ : Unit) m => (Member.enc p m, ())) () ms
 def Members.marshal (p : BitVec 16) (ms : List Member) : Option Bytes :=
